@@ -150,14 +150,17 @@ func hiddenKeys(v interface{}, depth int, maxDepth int, path string) []string {
 	if !ok {
 		return nil
 	}
-	for _, k := range []string{"bto", "bcc"} {
+	// (also under the alias the generators use for the vocabulary)
+	for _, k := range []string{"bto", "bcc", "as:bto", "as:bcc"} {
 		if _, has := m[k]; has {
 			out = append(out, path+"/"+k)
 		}
 	}
 	if depth < maxDepth {
-		for i, o := range asList(m["object"]) {
-			out = append(out, hiddenKeys(o, depth+1, maxDepth, fmt.Sprintf("%s/object[%d]", path, i))...)
+		for _, ok := range []string{"object", "as:object"} {
+			for i, o := range asList(m[ok]) {
+				out = append(out, hiddenKeys(o, depth+1, maxDepth, fmt.Sprintf("%s/%s[%d]", path, ok, i))...)
+			}
 		}
 	}
 	return out
